@@ -328,7 +328,16 @@ func workerEnv(b *Batch, prop string, extra ...string) []string {
 		os.MkdirAll(tmp, 0755)
 		env = append(env, "VW_FAMILY_DIR="+filepath.Join(verifDir, "family"), "VW_REPO_V2="+filepath.Join(repoDir, "v2"), "VW_TMP="+tmp)
 	}
-	env = append(env, "VW_SCEN="+b.Scen, "VW_CFG="+b.Cfg, "VW_PROP="+prop)
+	own := prop
+	if spec, ok := props[prop]; ok {
+		for _, a := range spec.Also {
+			own += "," + a
+		}
+	}
+	if b.RaceProp != "" {
+		own += "," + b.RaceProp
+	}
+	env = append(env, "VW_SCEN="+b.Scen, "VW_CFG="+b.Cfg, "VW_PROP="+prop, "VW_OWN="+own+",C17")
 	if b.Bubble {
 		env = append(env, "GOMAXPROCS=1", "GODEBUG=asyncpreemptoff=1")
 	} else {
@@ -399,15 +408,21 @@ var frameRe = regexp.MustCompile(`^\s+(\S+)\(\)\s*$`)
 
 // raceSignature names the two conflicting accesses of the first report by the
 // function at the top of each access stack that is not runtime / reflect / sync
-// plumbing. A race whose access sits in harness code (verif/..., vscratch/scen/...)
-// is the harness's own and is reported as harness trouble, never as a violation.
+// plumbing or a seam shim. A race between two harness accesses, or one where the
+// harness side WRITES, is the harness's own (reported as harness trouble, never as a
+// violation). A harness READ of memory that repository code writes later is a genuine
+// finding: the harness only ever reads what was published to it (a snapshot, a
+// response, an argument), so a conflicting later write is a mutation after publication.
 func raceSignature(log string) string {
-	var sigs []string
-	harness := false
+	type acc struct {
+		fn      string
+		write   bool
+		harness bool
+	}
+	var accs []acc
 	sc := bufio.NewScanner(strings.NewReader(log))
 	sc.Buffer(make([]byte, 1<<20), 1<<20)
-	inAccess := false
-	got := false
+	inAccess, got, isWrite := false, false, false
 	clean := func(fn string) string {
 		fn = strings.TrimPrefix(fn, "github.com/PapaCharlie/go-restli/")
 		fn = regexp.MustCompile(`\.func\d+(\.\d+)*$`).ReplaceAllString(fn, "")
@@ -421,9 +436,10 @@ func raceSignature(log string) string {
 			strings.HasPrefix(line, "Previous write at") || strings.HasPrefix(line, "Previous read at") ||
 			strings.HasPrefix(line, "Atomic write at") || strings.HasPrefix(line, "Previous atomic"):
 			inAccess, got = true, false
+			isWrite = strings.Contains(strings.ToLower(line), "write")
 		case strings.HasPrefix(line, "Goroutine "):
 			inAccess = false
-			if len(sigs) >= 2 {
+			if len(accs) >= 2 {
 				goto out
 			}
 		case inAccess && !got:
@@ -434,29 +450,39 @@ func raceSignature(log string) string {
 					continue
 				case strings.HasPrefix(fn, "verif/sim/simrt.") || strings.HasPrefix(fn, "verif/sim/simsync."):
 					continue // seam shims: the access belongs to their caller
-				case strings.HasPrefix(fn, "verif/") || strings.HasPrefix(fn, "vscratch/scen/"):
-					harness = true
-					sigs = append(sigs, clean(fn))
-					got = true
 				default:
-					sigs = append(sigs, clean(fn))
+					h := strings.HasPrefix(fn, "verif/") || strings.HasPrefix(fn, "vscratch/scen/")
+					accs = append(accs, acc{clean(fn), isWrite, h})
 					got = true
 				}
 			}
 		}
 	}
 out:
-	if len(sigs) == 0 {
+	if len(accs) == 0 {
 		return "race:unattributed"
 	}
-	sort.Strings(sigs)
-	if len(sigs) > 2 {
-		sigs = sigs[:2]
+	if len(accs) > 2 {
+		accs = accs[:2]
 	}
+	var names []string
+	harness := true
+	for _, a := range accs {
+		names = append(names, a.fn)
+		if !a.harness {
+			harness = false
+		}
+	}
+	for _, a := range accs {
+		if a.harness && a.write {
+			harness = true
+		}
+	}
+	sort.Strings(names)
 	if harness {
-		return "harness-race:" + strings.Join(sigs, "|")
+		return "harness-race:" + strings.Join(names, "|")
 	}
-	return "race:" + strings.Join(sigs, "|")
+	return "race:" + strings.Join(names, "|")
 }
 
 // classify turns a worker outcome into a violation (or nil), filling in race details.
